@@ -949,6 +949,8 @@ fc_statements = [
     ),
     dict(
         name="c_char_*_result_buf_allocatable",
+        c_impl_header=["<string.h>"],
+        cxx_impl_header=["<cstring>"],
         buf_args=["context"],
         c_helper="ShroudTypeDefines",
         # Copy address of result into c_var and save length.
@@ -1401,6 +1403,7 @@ fc_statements = [
     dict(
         name="c_vector_inout_buf_string",
         buf_args=["arg", "size", "len"],
+        c_helper="ShroudLenTrim",
         cxx_local_var="scalar",
         pre_call=[
             "std::vector<{cxx_T}> {cxx_var};",
@@ -1709,6 +1712,7 @@ fc_statements = [
             "c_mixin_cfi_character_arg",
         ],
         # Null terminate string.
+        c_helper="ShroudStrAlloc ShroudStrFree",
         pre_call=[
             "char *{c_var} = "
             "{cast_static}char *{cast1}{cfi_prefix}{c_var}->base_addr{cast2};",
@@ -1789,6 +1793,8 @@ fc_statements = [
         mixin=[
             "c_mixin_cfi_character_arg",
         ],
+        c_impl_header=["<string.h>"],
+        cxx_impl_header=["<cstring>"],
         f_arg_decl=[        # replace mixin
             "character(len=:), intent({f_intent}), allocatable :: {c_var}",
         ],
@@ -1852,7 +1858,7 @@ fc_statements = [
         mixin=[
             "c_mixin_cfi_character_arg",
         ],
-        c_helper="ShroudStrCopy",
+        c_helper="ShroudStrCopy ShroudLenTrim",
         cxx_local_var="scalar",
         pre_call=[
             "char *{c_var} = "
@@ -1917,6 +1923,8 @@ fc_statements = [
         mixin=[
             "c_mixin_cfi_character_arg",
         ],
+        c_impl_header=["<string.h>"],
+        cxx_impl_header=["<cstring>"],
         f_arg_decl=[        # replace mixin
             "character(len=:), intent({f_intent}), allocatable :: {c_var}",
         ],
